@@ -65,8 +65,20 @@ fn ret_in_while(n: int) -> str {
     }
     "unreachable"
 }
+fn inner_throw(n: int) -> int {
+    let pad = [n, n + 1];
+    if pad[0] == n { throw("c" + n.to_string()); }
+    n
+}
 fn catcher(n: int) -> str {
-    try { throw("c" + n.to_string()); } catch e { e.message }
+    let same = try { throw("c" + n.to_string()); } catch e { e.message };
+    // wave 14: the same message once more from an exception that unwinds out of a callee, twice per call
+    let k = 0;
+    let crossed = "";
+    while k < 2 {
+        try { k = k + inner_throw(n); } catch e { crossed = e.message; k = k + 1; }
+    }
+    if same == crossed { crossed } else { "same=" + same + " crossed=" + crossed }
 }
 fn thrower(msg: str) { throw(msg); }
 fn div(a: int, b: int) -> int { a / b }
